@@ -28,8 +28,10 @@ import (
 	"time"
 
 	"github.com/risor-io/risor"
+	"github.com/risor-io/risor/compiler"
 	"github.com/risor-io/risor/object"
 	ros "github.com/risor-io/risor/os"
+	"github.com/risor-io/risor/parser"
 	"github.com/risor-io/risor/token"
 
 	"verifharness/run"
@@ -390,6 +392,10 @@ func evalAttempt(src string, opts []risor.Option, repl map[object.Object]string,
 // configuration was given before (opts[0] is the WithGlobals option of baseOptions): configurations must not
 // communicate through the host's map.
 func evalAttemptMode(src string, opts []risor.Option, repl map[object.Object]string, mode string) (res N) {
+	return evalAttemptModeB(src, opts, nil, repl, mode)
+}
+
+func evalAttemptModeB(src string, opts, optsB []risor.Option, repl map[object.Object]string, mode string) (res N) {
 	reused := mode == "reused"
 	ctx, cancel := context.WithTimeout(context.Background(), 5*time.Second)
 	defer cancel()
@@ -418,7 +424,36 @@ func evalAttemptMode(src string, opts []risor.Option, repl map[object.Object]str
 		}
 		all = append(all, risor.WithVM(machine))
 	}
-	v, err := risor.Eval(ctx, src, all...)
+	var v object.Object
+	var err error
+	if mode == "keptconfig" {
+		// the host keeps Config values: this configuration is initialised, then a second, more permissive one that
+		// uses the SAME replacement objects (optsB: the overrides only), then the script runs under the first
+		cfgA := risor.NewConfig(all...)
+		cfgA.Globals()
+		if optsB != nil {
+			cfgB := risor.NewConfig(append([]risor.Option{risor.WithOS(vos)}, optsB...)...)
+			cfgB.Globals()
+		}
+		prog, perr := parser.Parse(ctx, src)
+		if perr != nil {
+			return N{"ok": false, "l": strings.SplitN(perr.Error(), "\n", 2)[0], "r": ""}
+		}
+		code, cerr := compiler.Compile(prog, cfgA.CompilerOpts()...)
+		if cerr != nil {
+			return N{"ok": false, "l": strings.SplitN(cerr.Error(), "\n", 2)[0], "r": ""}
+		}
+		machine := vm.New(code, cfgA.VMOpts()...)
+		if err = machine.Run(ctx); err == nil {
+			if tos, ok := machine.TOS(); ok {
+				v = tos
+			} else {
+				v = object.Nil
+			}
+		}
+	} else {
+		v, err = risor.Eval(ctx, src, all...)
+	}
 	if err != nil {
 		msg := err.Error()
 		if j := strings.Index(msg, "\n"); j > 0 {
@@ -439,8 +474,10 @@ func caseWorker(req N) (resp N) {
 	// The host builds its options - its own globals and replacement objects included - anew
 	// for every Config: risor edits host-supplied modules in place, and the property's
 	// independence claim covers default globals only.
+	var lastOptsB []risor.Option
 	build := func() ([]risor.Option, map[object.Object]string) {
 		opts := baseOptions()
+		optsB := baseOptions()
 		if nodefaults {
 			opts = append(opts, risor.WithoutDefaultGlobals())
 		}
@@ -466,7 +503,9 @@ func caseWorker(req N) (resp N) {
 				repl[r] = kind
 			}
 			opts = append(opts, risor.WithGlobalOverride(strings.Join(strs(on["name"]), "."), r))
+			optsB = append(optsB, risor.WithGlobalOverride(strings.Join(strs(on["name"]), "."), r))
 		}
+		lastOptsB = optsB
 		return opts, repl
 	}
 	opts, _ := build()
@@ -484,9 +523,13 @@ func caseWorker(req N) (resp N) {
 			if src == "" {
 				continue
 			}
-			for _, mode := range []string{"fresh", "reused", "sharedmap"} {
+			modes := []string{"fresh", "reused", "sharedmap"}
+			if len(req["ov"].([]any)) > 0 {
+				modes = append(modes, "keptconfig")
+			}
+			for _, mode := range modes {
 				o, repl := build()
-				r := evalAttemptMode(src, o, repl, mode)
+				r := evalAttemptModeB(src, o, lastOptsB, repl, mode)
 				r["p"] = pi + 1
 				r["s"] = st
 				r["vm"] = mode
